@@ -240,6 +240,11 @@ static void * pio_init(struct ec_backend_args *args, void *backend_sohandle)
         desc->hd = DEFAULT_HD;
     args->uargs.hd = desc->hd;
 
+    /* sizes are computed with w / 8 and (w / 8 - hd) as divisors */
+    if (desc->w / 8 - desc->hd <= 0) {
+        goto error;
+    }
+
     /*
      * ISO C forbids casting a void* to a function pointer.
      * Since dlsym return returns a void*, we use this union to
